@@ -22,7 +22,7 @@ fn spec(t: Tier) -> Spec {
     Spec {
         id: "C10",
         level: "fault_enumeration",
-        rule: format!("every ordered forest with <= {} nodes over leaves (file, empty directory, link to an outside file, link to an outside directory holding a file (one outside directory per link), dangling link) and directories, as the content of r/; x {} expressions before -delete ({:?}); x -P -H -L; x starting points r | lr (a link to r) | r s | s r (s a second fixed tree, so that a failed removal can lie under a starting point that is not the last). Removal faults arise by construction (a matched directory with an unmatched child: rmdir fails) — every placement the expressions and trees produce is enumerated. For each case the tree is built twice: (1) the real find runs `-depth EXPR -print` and the output must be the reference list of matched entries in depth-first order; (2) on the rebuilt tree the real find runs `EXPR -delete -printf 'D %p' -o -printf 'N %p'`: the D lines must be exactly the removals the reference simulation predicts, in order (a directory only when all its children were removed; a link itself, never its target), N lines everything else incl. failed removals, exit status and a diagnostic iff a removal failed, walk not stopped; (3) the snapshot (path, type, mode, size, link target, content hash, link count) of the whole sandbox after the run must equal the predicted one: nothing else changed inside or outside. non-trivial = case in which at least one entry is matched and at least one is not, or a removal fails", max_nodes(t), EXPRS.len(), EXPRS),
+        rule: format!("every ordered forest with <= {} nodes over leaves (file, empty directory, link to an outside file, link to an outside directory holding a file (one outside directory per link), dangling link) and directories, as the content of r/; (sibling names a, b., c, d.., ..., f: some end in a dot) x {} expressions before -delete ({:?}); x -P -H -L; x starting points r | lr (a link to r) | r s | s r (s a second fixed tree, so that a failed removal can lie under a starting point that is not the last). Removal faults arise by construction (a matched directory with an unmatched child: rmdir fails) — every placement the expressions and trees produce is enumerated. For each case the tree is built twice: (1) the real find runs `-depth EXPR -print` and the output must be the reference list of matched entries in depth-first order; (2) on the rebuilt tree the real find runs `EXPR -delete -printf 'D %p' -o -printf 'N %p'`: the D lines must be exactly the removals the reference simulation predicts, in order (a directory only when all its children were removed; a link itself, never its target), N lines everything else incl. failed removals, exit status and a diagnostic iff a removal failed, walk not stopped; (3) the snapshot (path, type, mode, size, link target, content hash, link count) of the whole sandbox after the run must equal the predicted one: nothing else changed inside or outside. non-trivial = case in which at least one entry is matched and at least one is not, or a removal fails", max_nodes(t), EXPRS.len(), EXPRS),
         bound: json!({"max_nodes": max_nodes(t), "expressions": EXPRS, "follow": ["-P","-H","-L"], "roots": ["r","lr","r s","s r"]}),
         assumptions: vec![
             "-empty (whose truth changes as the walk deletes) and a starting point spelled '.' are outside the check".into(),
@@ -52,9 +52,12 @@ fn c10_fs(forest: &[Shape]) -> Fs {
     fs
 }
 
+/// sibling names: some end in '.', one is "..." (names are not path components "." / "..")
+const C10_NAMES: [&str; 8] = ["a", "b.", "c", "d..", "...", "f", "g", "h"];
+
 fn inst(fs: &mut Fs, dir: usize, forest: &[Shape], up: &str, out: usize, nd: &mut usize) {
     for (i, s) in forest.iter().enumerate() {
-        let name = tree::NAMES[i];
+        let name = C10_NAMES[i];
         match s {
             Shape::Dir(sub) => {
                 let d = fs.add(dir, name, K::Dir);
@@ -84,7 +87,7 @@ fn expr_args(e: &str) -> Vec<&'static str> {
     match e {
         "always" => vec![],
         "name-a" => vec!["-name", "a"],
-        "name-b" => vec!["-name", "b"],
+        "name-b" => vec!["-name", "b."],
         "not-name-a" => vec!["!", "-name", "a"],
         "type-f" => vec!["-type", "f"],
         "type-d" => vec!["-type", "d"],
@@ -105,7 +108,7 @@ fn expr_true(e: &str, fs: &Fs, v: &Visit, root: &str) -> bool {
     match e {
         "always" => true,
         "name-a" => base == "a",
-        "name-b" => base == "b",
+        "name-b" => base == "b.",
         "not-name-a" => base != "a",
         "type-f" => *kind == K::File,
         "type-d" => *kind == K::Dir,
